@@ -1,13 +1,28 @@
-"""CLI: ./check <id> [--tier quick|thorough] [--replay file]"""
+"""CLI: ./check <id> [--tier quick|thorough] [--replay file]
+
+A driver is any module harness/drivers/<name>.py that declares
+``PROPERTIES = ("Cxx", ...)`` and ``run(pid, tier, seed, replay=None) -> exit code``.
+"""
 import argparse
 import importlib
 import os
+import pkgutil
 import sys
 import traceback
 
-DRIVERS = {
-    "C14": "params",
-}
+
+def discover():
+    import harness.drivers as pkg
+
+    table = {}
+    for m in pkgutil.iter_modules(pkg.__path__):
+        src = open(os.path.join(pkg.__path__[0], m.name + ".py")).read()
+        if "PROPERTIES" not in src:
+            continue
+        mod = importlib.import_module("harness.drivers." + m.name)
+        for pid in getattr(mod, "PROPERTIES", ()):
+            table[pid] = mod
+    return table
 
 
 def main():
@@ -17,15 +32,17 @@ def main():
     ap.add_argument("--replay", default=None)
     a = ap.parse_args()
     seed = int(os.environ.get("VERIF_SEED", "20240519"))
-    if a.pid == "selftest":
-        mod = importlib.import_module("harness.selftest")
-        sys.exit(mod.run(a.tier, seed))
-    if a.pid not in DRIVERS:
-        print("unknown property %s" % a.pid)
-        sys.exit(2)
-    mod = importlib.import_module("harness.drivers." + DRIVERS[a.pid])
     try:
-        rc = mod.run(a.pid, a.tier, seed, replay=a.replay)
+        if a.pid == "selftest":
+            mod = importlib.import_module("harness.selftest")
+            sys.exit(mod.run(a.tier, seed))
+        table = discover()
+        if a.pid not in table:
+            print("unknown property %s (have %s)" % (a.pid, sorted(table)))
+            sys.exit(2)
+        rc = table[a.pid].run(a.pid, a.tier, seed, replay=a.replay)
+    except SystemExit:
+        raise
     except Exception:  # noqa: BLE001  machinery failure, never a VIOLATION
         traceback.print_exc()
         print("MACHINERY-FAILURE property=%s" % a.pid)
